@@ -58,10 +58,35 @@ class OutsideIndex(Exception):
     """an array index outside [0, n): Python wraps negative indices / raises IndexError, Guppy panics (C19's subject, outside C03/C05)"""
 
 
+_ACC = [True]      # "every arithmetic result so far stayed inside int64" — accumulated without branching (one decision per run, not per op)
+
+
 def _chk(v):
-    if not (-H <= v < H):
-        raise Overflow()
+    _ACC[0] = _ACC[0] & (v >= -H) & (v < H)
     return v
+
+
+def reset_acc():
+    _ACC[0] = True
+
+
+def check_acc():
+    """raises Overflow if any result of the run left int64: the run continued with the mathematical values (as Python would),
+    so whatever it produced afterwards is outside the compared behaviour"""
+    if not _ACC[0]:
+        raise Overflow()
+
+
+def guarded(run):
+    """run() with the deferred overflow decision applied to its outcome, normal or exceptional"""
+    reset_acc()
+    try:
+        r = run()
+    except Exception:
+        check_acc()
+        raise
+    check_acc()
+    return r
 
 
 def _div(a, b):
@@ -100,6 +125,12 @@ def _pow(a, b):
     return _chk(a ** b)
 
 
+def _fdiv(a, b):
+    if b == 0:
+        raise Overflow()      # (HUGR gives inf / nan, Python raises: outside the compared behaviour)
+    return a / b
+
+
 OPS = {
     "arithmetic.int.iadd": lambda a, b: _chk(a + b), "arithmetic.int.isub": lambda a, b: _chk(a - b), "arithmetic.int.imul": lambda a, b: _chk(a * b),
     "arithmetic.int.ineg": lambda a: _chk(-a), "arithmetic.int.iabs": lambda a: _chk(abs(a)),
@@ -110,7 +141,7 @@ OPS = {
     "arithmetic.int.ishl": _shl, "arithmetic.int.ishr": _shr, "arithmetic.int.ipow": _pow,
     # floats: Python's float is binary64, as is HUGR's float64
     "arithmetic.float.fadd": lambda a, b: a + b, "arithmetic.float.fsub": lambda a, b: a - b, "arithmetic.float.fmul": lambda a, b: a * b,
-    "arithmetic.float.fneg": lambda a: -a, "arithmetic.float.fabs": lambda a: abs(a),
+    "arithmetic.float.fneg": lambda a: -a, "arithmetic.float.fabs": lambda a: abs(a), "arithmetic.float.fdiv": lambda a, b: _fdiv(a, b),
     "arithmetic.float.feq": lambda a, b: a == b, "arithmetic.float.fne": lambda a, b: a != b, "arithmetic.float.flt": lambda a, b: a < b,
     "arithmetic.float.fle": lambda a, b: a <= b, "arithmetic.float.fgt": lambda a, b: a > b, "arithmetic.float.fge": lambda a, b: a >= b,
     "arithmetic.conversions.convert_s": lambda a: float(a), "arithmetic.conversions.convert_u": lambda a: float(a),
@@ -413,4 +444,4 @@ def check_and_snapshot(defn):
 def run_checked(defn, checked, args, rec, fuel=600):
     """interpret the checked CFG of a @guppy definition"""
     chk = checked[defn.id]
-    return Interp(rec, checked, fuel).run_cfg(chk.cfg, list(args), chk.ty.input_names)
+    return guarded(lambda: Interp(rec, checked, fuel).run_cfg(chk.cfg, list(args), chk.ty.input_names))
